@@ -1,5 +1,10 @@
 import PsV.Proofs.FitsRead
+import PsV.Proofs.FitsReadState
+import PsV.Proofs.FitsEvalBridge
+import PsV.Proofs.FitsDecode
+import PsV.Proofs.DoubleValue
 import PsV.Props.C04
+import PsV.Props.C05
 /-!
 # C07 — reading any bytes either fails cleanly or yields a safe, well-formed table
 
@@ -8,6 +13,18 @@ storage guard of commit 907b348 (`storage_guard` / `release_storage`), `stateAt 
 members are allocated, which pointer slots are NULL or garbage), `destroy` the destructor `~splinetable`.  `readCore`
 and `stateAt false` describe the code before the repair.  These are the definitions the driver
 (`PsV/Driver/C06.lean`, command `R`) runs against the real readers on mutated files.
+
+Second part (sections "the object, step by step", "every accepted table is safe to use", "bytes"):
+* `readGuarded` / `readFits` / `readSeq` (`PsV/Model/FitsReadState.lean`) execute the statements of `read_fits_core` on
+  the object in source order; `C07_guarded_refines` links them to `readFixed` and to the driver's
+  `cleanup (stateAt …)`, `C07_rejected_leaves_empty`, `C07_accepted_object`, `C07_read_total_state`, `C07_reuse` are
+  the statements about the object after a read.
+* `Table.lookupAxes` / `Table.evalView` (`PsV/Model/FitsView.lean`) are the table object as `searchcenters` and the
+  evaluators see it, with arbitrary memory contents outside the arrays the reader filled;
+  `C07_accepted_lookup_safe`, `C07_accepted_eval_reads_owned`, `C07_accepted_gradient_reads_owned`,
+  `C07_read_then_use_safe` compose the reader with C04 and C05 for **every** accepted table;
+  `C07_accepted_eval_wf` gives the `Table.WF` / `Dim.WF` of `Proofs/Bridge.lean` / `EvalSpec.lean`.
+* `C07_bytes_framed`, `C07_bytes_total`: every byte string the decoder accepts is tiled by the HDUs it yields.
 -/
 namespace PsV
 open PsV.Fits
@@ -34,13 +51,13 @@ example : (∃ t, readFixed exExt exValid = .ok t) ∧ readFixed exExt exCounts 
   · exact exCounts_fixed
 
 /-- The repair only rejects: a table it returns is the table the unrepaired reader returns. -/
-theorem readFixed_sound (E : Ext) (f : Fits) (t : Table) (h : readFixed E f = .ok t) : readCore E f = .ok t :=
+theorem readFixed_sound (E : Ext) (f : Fits) (t : Fits.Table) (h : readFixed E f = .ok t) : readCore E f = .ok t :=
   ((readFixed_ok_iff E f t).mp h).1
 
 example : ∃ t, readFixed exExt exValid = .ok t := ⟨_, exValid_read⟩
 
 /-- … and it rejects exactly the tables that fail the per-dimension checks. -/
-theorem readFixed_complete (E : Ext) (f : Fits) (t : Table) (h : readCore E f = .ok t) (hw : DimsWF t) :
+theorem readFixed_complete (E : Ext) (f : Fits) (t : Fits.Table) (h : readCore E f = .ok t) (hw : DimsWF t) :
     readFixed E f = .ok t :=
   (readFixed_ok_iff E f t).mpr ⟨h, hw⟩
 
@@ -48,12 +65,12 @@ example : ∃ t, readCore exExt exValid = .ok t ∧ DimsWF t :=
   ⟨_, readFixed_sound _ _ _ exValid_read, ((readFixed_ok_iff _ _ _).mp exValid_read).2⟩
 
 /-- dimension `i` of a table as the lookup model of C04 sees it: knots through their order-isomorphic integer keys -/
-def axisOf (t : Table) (i : Nat) : Axis Int :=
+def axisOf (t : Fits.Table) (i : Nat) : Axis Int :=
   ⟨t.order.getD i 0, (t.knots.getD i []).length, fun j => ((t.knots.getD i []).map dkey).getD j 0⟩
 
 /-- Well-formedness is what C04 (and through it C05's memory-safety argument) assumes of every dimension:
     `nknots ≥ 2·order+2` and non-decreasing knots. -/
-theorem WF_implies_C04 (t : Table) (h : t.WF) (i : Nat) (hi : i < t.ndim) : (axisOf t i).WF := by
+theorem WF_implies_C04 (t : Fits.Table) (h : t.WF) (i : Nat) (hi : i < t.ndim) : (axisOf t i).WF := by
   obtain ⟨_, _, _, _, _, hd, _, _⟩ := h
   obtain ⟨hlen, _, hv⟩ := hd i hi
   refine ⟨hlen, ?_⟩
@@ -64,7 +81,7 @@ theorem WF_implies_C04 (t : Table) (h : t.WF) (i : Nat) (hi : i < t.ndim) : (axi
     exact hv.2
   exact sortedKeys_mono _ hs a b hab (by simpa [axisOf] using hb)
 
-example : ∃ t : Table, t.WF ∧ 0 < t.ndim := ⟨exValidTable, readFixed_wf _ _ _ exValid_read, by decide⟩
+example : ∃ t : Fits.Table, t.WF ∧ 0 < t.ndim := ⟨exValidTable, readFixed_wf _ _ _ exValid_read, by decide⟩
 
 /-! ## the code before the repair -/
 
@@ -97,5 +114,360 @@ theorem destroy_complete (ndim : Nat) (h : 0 < ndim) : destroy (stateAt true ndi
   destroy_done ndim h
 
 example : destroy (stateAt true 3 .done) = .ok [] := destroy_done 3 (by decide)
+
+/-! ## the object, step by step -/
+
+/-- The step-by-step reader (every `allocate` and every assignment of `read_fits_core` executed on the object, the
+    storage guard run at scope exit) is linked to the two definitions the driver executes: its verdict is
+    `readFixed`'s, and when that is an error its object is what the driver computes as
+    `cleanup (stateAt true ndim (stopOf e))`. -/
+theorem C07_guarded_refines (E : Ext) (f : Fits) :
+    (∀ e, readFixed E f = .error e →
+      ∃ o, afterFailure (f.headD default).axes.length e = .ok o ∧ readGuarded E f = .ok (o, .error e)) ∧
+    (∀ t, readFixed E f = .ok t → ∃ o, readGuarded E f = .ok (o, .ok t)) :=
+  ⟨fun e h => ⟨Obj.empty, cleanup_after_readFixed E f e h, readGuarded_error E f e h⟩,
+   fun t h => ⟨_, (readGuarded_ok E f t h).1⟩⟩
+
+example : readGuarded exExt exCounts = .ok (Obj.empty, .error (.invalid 0 1)) :=
+  readGuarded_error _ _ _ exCounts_fixed
+
+/-- **C07 (3): a rejected read leaves no partially constructed table observable.**  For every store and every
+    failure point of the reader: after `read_fits_core` has returned to its caller, the object *is* the empty table
+    (`ndim = 0`, every pointer member NULL) and every block allocated on the way has been released exactly once. -/
+theorem C07_rejected_leaves_empty (E : Ext) (f : Fits) (e : RErr) (h : readFixed E f = .error e) :
+    readGuarded E f = .ok (Obj.empty, .error e) :=
+  readGuarded_error E f e h
+
+/-- non-vacuous at a late failure point: two dimensions, `KNOTS1` missing — the read stops inside the knot loop with
+    eleven blocks allocated (`knots[0]` among them) and still leaves the empty object -/
+example : readFixed exExt exMissingKnots = .error (.knotSize 1) ∧
+    (stateAt true 2 (stopOf (.knotSize 1))).live.length = 11 ∧
+    readGuarded exExt exMissingKnots = .ok (Obj.empty, .error (.knotSize 1)) := by
+  have h : readFixed exExt exMissingKnots = .error (.knotSize 1) := by decide
+  exact ⟨h, by decide, readGuarded_error _ _ _ h⟩
+
+/-- An accepted read leaves the completely populated object (all `ndim` knot vectors assigned, nothing else
+    outstanding); the destructor releases it without following an unset pointer and with an empty ledger. -/
+theorem C07_accepted_object (E : Ext) (f : Fits) (t : Fits.Table) (h : readFixed E f = .ok t) :
+    readGuarded E f = .ok (stateAt true t.ndim .done, .ok t) ∧ destroy (stateAt true t.ndim .done) = .ok [] :=
+  readGuarded_ok E f t h
+
+example : ∃ t, readFixed exExt exValid = .ok t := ⟨_, exValid_read⟩
+
+/-- `C07_read_total` on the object itself: for every store the guarded read ends in one of two states — a
+    well-formed table in a completely populated, safely destructible object, or an error and the empty object.
+    It never faults. -/
+theorem C07_read_total_state (E : Ext) (f : Fits) :
+    (∃ t, readGuarded E f = .ok (stateAt true t.ndim .done, .ok t) ∧ t.WF ∧
+      destroy (stateAt true t.ndim .done) = .ok []) ∨
+    (∃ e, readGuarded E f = .ok (Obj.empty, .error e)) := by
+  cases hr : readFixed E f with
+  | ok t => exact .inl ⟨t, (readGuarded_ok E f t hr).1, readFixed_wf E f t hr, (readGuarded_ok E f t hr).2⟩
+  | error e => exact .inr ⟨e, readGuarded_error E f e hr⟩
+
+example : (∃ t, readFixed exExt exValid = .ok t) ∧ readFixed exExt exCounts = .error (.invalid 0 1) :=
+  ⟨⟨_, exValid_read⟩, exCounts_fixed⟩
+
+/-- **Reusable**: after any sequence of rejected files the object is exactly a fresh one (so the `ndim != 0` test of
+    `read_fits` lets through the next read), each rejected file got its verdict, and reading one more file `f` into the
+    same object gives what reading `f` into a fresh object gives. -/
+theorem C07_reuse (E : Ext) (fs : List Fits) (f : Fits) (hrej : ∀ g ∈ fs, ∃ e, readFixed E g = .error e) :
+    readSeq E Obj.empty fs = .ok (Obj.empty, fs.map (readFixed E)) ∧
+    readSeq E Obj.empty (fs ++ [f]) =
+      (match readFits E Obj.empty f with
+       | .error x => .error x
+       | .ok (o, r) => .ok (o, fs.map (readFixed E) ++ [r])) := by
+  constructor
+  · obtain ⟨rs, h1, h2⟩ := readSeq_rejected E fs hrej
+    rw [h1, h2]
+  · induction fs with
+    | nil =>
+      simp only [List.nil_append, readSeq, List.map_nil]
+      cases readFits E Obj.empty f with
+      | error x => rfl
+      | ok p => rfl
+    | cons g gs ih =>
+      obtain ⟨e, he⟩ := hrej g (by simp)
+      have ih' := ih (fun k hk => hrej k (by simp [hk]))
+      simp only [List.cons_append, readSeq, readFits_empty_error E g e he, ih', List.map_cons, he]
+      cases readFits E Obj.empty f with
+      | error x => rfl
+      | ok p => rfl
+
+example : ∀ g ∈ [exCounts, exMissingKnots], ∃ e, readFixed exExt g = .error e := by
+  intro g hg
+  simp only [List.mem_cons, List.not_mem_nil, or_false] at hg
+  rcases hg with rfl | rfl
+  · exact ⟨_, exCounts_fixed⟩
+  · exact ⟨.knotSize 1, by decide⟩
+
+/-- which stops exist for a table of `nd` dimensions -/
+def Fits.Stop.valid (nd : Nat) : Stop → Prop
+  | .knot i _ => i < nd
+  | _ => True
+
+/-- The storage guard empties the object at **every** throw site of the source, reachable in the reader model or
+    not (`imgSize` stands for the two throws after `fits_get_img_size` — cfitsio error, negative axis — which the
+    abstract store cannot produce), for every number of dimensions. -/
+theorem C07_cleanup_every_stop (nd : Nat) (s : Stop) (h : s.valid nd) :
+    cleanup (stateAt true nd s) = .ok Obj.empty := by
+  cases s with
+  | early => exact cleanup_early nd
+  | order => exact cleanup_order nd
+  | imgSize => exact cleanup_imgSize nd
+  | readPix => exact cleanup_readPix nd
+  | knot i a => exact cleanup_knot nd i a h
+  | extData => exact cleanup_extData nd
+  | done => exact cleanup_extData nd
+
+example : (Stop.knot 1 true).valid 3 ∧ (stateAt true 3 (.knot 1 true)).live.length = 12 :=
+  ⟨show 1 < 3 by decide, by decide⟩
+
+/-! ## every accepted table is safe to use: composition with C04 (lookup) and C05 (evaluation) -/
+
+/-- **Lookup on an accepted table**, for every coordinate vector (`none` = NaN) and whatever the memory beyond the
+    knot arrays holds: `searchcenters` terminates, its outcome does not depend on anything outside
+    `knots[i][0 .. nknots[i])` (it reads nothing else), and every centre vector it returns lies in the range for which
+    C05 proves the evaluators memory-safe (`CentersInRange` of the evaluators' view of the same table). -/
+theorem C07_accepted_lookup_safe (E : Ext) (f : Fits) (t : Fits.Table) (h : readFixed E f = .ok t)
+    (memK : Nat → Nat → Option Int) (xs : List (Option Int)) :
+    searchCenters (t.lookupAxes memK) xs ≠ .nonterm ∧
+    (∀ memK', searchCenters (t.lookupAxes memK') xs = searchCenters (t.lookupAxes memK) xs) ∧
+    (∀ cs, searchCenters (t.lookupAxes memK) xs = .ok cs →
+      ∀ {α : Type} (kn : UInt64 → α) (mem : Nat → Int → α), CentersInRange (t.evalDims kn mem) cs) := by
+  have hwf := readFixed_wf E f t h
+  obtain ⟨_, _, _, _, _, hd, _⟩ := hwf
+  have hd' : ∀ i, 0 ≤ i → i < 0 + t.ndim →
+      DimWF (t.order.getD i 0) (t.naxes.getD i 0) (t.knots.getD i []) := fun i _ hi => hd i (by omega)
+  unfold Table.lookupAxes
+  rw [List.range_eq_range']
+  refine ⟨(search_range' (α := Unit) t memK (fun _ => ()) (fun _ _ => ()) t.ndim 0 xs hd').1, ?_, ?_⟩
+  · intro memK'
+    exact search_mem_indep_range' t memK' memK t.ndim 0 xs hd'
+  · intro cs hcs α kn mem
+    unfold Table.evalDims
+    rw [List.range_eq_range']
+    exact (search_range' t memK kn mem t.ndim 0 xs hd').2 cs hcs
+
+/-- non-vacuous: on the table read from `exValid` the coordinate 1.0 is inside the knot range and gets centre 1 -/
+example : readFixed exExt exValid = .ok exValidTable ∧
+    searchCenters (exValidTable.lookupAxes fun _ _ => none) [some 4607182418800017408] = .ok [1] :=
+  ⟨exValid_read, by decide⟩
+
+variable {α : Type} [A : Arith α]
+
+/-- **Evaluation of an accepted table touches only storage the reader allocated** — C05 applies to every table the
+    reader returns.  `mem` / `mem'` are two contents of everything that is not one of the `nknots[i]` knot values
+    read from the file, `memC` / `memC'` two contents of everything that is not one of the `ncoeffs` coefficients read
+    from the file.  If `mem` and `mem'` agree on the `order[i]` padding cells on either side of each knot vector
+    (allocated by the reader, never written), then for every arithmetic, every coordinate vector, every mode list
+    (`ndsplineeval`, `ndsplineeval_deriv`) and every centre vector in range the result is the same: no cell outside
+    `knots[i][-order[i] .. nknots[i]+order[i])` and `coefficients[0 .. ncoeffs)` is read. -/
+theorem C07_accepted_eval_reads_owned (E : Ext) (f : Fits) (t : Fits.Table) (h : readFixed E f = .ok t)
+    (kn : UInt64 → α) (cf : UInt32 → α) (mem mem' : Nat → Int → α) (memC memC' : Int → α)
+    (hpad : PadAgree t mem mem') (xs : List α) (cs : List Nat) (ms : List BasisMode)
+    (hc : CentersInRange (t.evalDims kn mem) cs) (hx : t.ndim = xs.length) (hm : t.ndim = ms.length) :
+    evalModes (t.evalView kn cf mem memC) xs cs ms = evalModes (t.evalView kn cf mem' memC') xs cs ms := by
+  have hwf := readFixed_wf E f t h
+  apply C05_eval_reads_owned
+  · exact evalDims_ne_nil t hwf kn mem
+  · show SameShape (t.evalDims kn mem) (t.evalDims kn mem')
+    unfold Table.evalDims
+    rw [List.range_eq_range']
+    exact sameShape_range' t kn mem mem' hpad _ _
+  · exact evalDims_rowMajor t hwf kn mem
+  · exact hc
+  · show (t.evalDims kn mem).length = xs.length
+    rw [evalDims_length]; exact hx
+  · show (t.evalDims kn mem).length = ms.length
+    rw [evalDims_length]; exact hm
+  · apply evalView_coef_agree
+    show ((ncoef (t.evalDims kn mem) : Nat) : Int) ≤ _
+    rw [evalDims_ncoef t hwf kn mem]
+
+/-- the same for every lane of `ndsplineeval_gradient` -/
+theorem C07_accepted_gradient_reads_owned (maxDim : Nat) (E : Ext) (f : Fits) (t : Fits.Table)
+    (h : readFixed E f = .ok t)
+    (kn : UInt64 → α) (cf : UInt32 → α) (mem mem' : Nat → Int → α) (memC memC' : Int → α)
+    (hpad : PadAgree t mem mem') (xs : List α) (cs : List Nat)
+    (hc : CentersInRange (t.evalDims kn mem) cs) (hx : t.ndim = xs.length) :
+    ndsplineevalGradient maxDim (t.evalView kn cf mem memC) xs cs
+      = ndsplineevalGradient maxDim (t.evalView kn cf mem' memC') xs cs := by
+  have hwf := readFixed_wf E f t h
+  apply C05_gradient_reads_owned
+  · exact evalDims_ne_nil t hwf kn mem
+  · show SameShape (t.evalDims kn mem) (t.evalDims kn mem')
+    unfold Table.evalDims
+    rw [List.range_eq_range']
+    exact sameShape_range' t kn mem mem' hpad _ _
+  · exact evalDims_rowMajor t hwf kn mem
+  · exact hc
+  · show (t.evalDims kn mem).length = xs.length
+    rw [evalDims_length]; exact hx
+  · apply evalView_coef_agree
+    show ((ncoef (t.evalDims kn mem) : Nat) : Int) ≤ _
+    rw [evalDims_ncoef t hwf kn mem]
+
+/-- hypotheses satisfiable: the table read from `exValid`, exact arithmetic, centre 1, two memory contents that
+    differ everywhere outside the (here empty, order 0) padding -/
+example : readFixed exExt exValid = .ok exValidTable ∧
+    PadAgree exValidTable (fun _ _ => (0 : Rat)) (fun _ j => if j < 0 ∨ 3 ≤ j then 7 else 0) ∧
+    CentersInRange (exValidTable.evalDims (fun b => ((dkey b : Int) : Rat)) (fun _ _ => (0 : Rat))) [1] := by
+  refine ⟨exValid_read, ?_, ⟨by decide, by decide, by decide⟩, trivial⟩
+  intro i j h1 h2
+  have hi : exValidTable.order.getD i 0 = 0 := by
+    cases i with
+    | zero => rfl
+    | succ i => rfl
+  have hk : (exValidTable.knots.getD i []).length ≤ 3 := by
+    cases i with
+    | zero => decide
+    | succ i => exact Nat.zero_le _
+  rw [hi] at h1 h2
+  have : ¬ (j < 0 ∨ 3 ≤ j) := by omega
+  simp [this]
+
+/-- **C07 ∘ C04 ∘ C05: reading, then looking up, then evaluating is safe for every input.**  For every store the
+    reader accepts, every coordinate vector (as comparison keys, `none` = NaN) and every memory content outside the
+    arrays: the lookup terminates and reads only the knot arrays; if it returns centres, then every evaluator, in
+    every arithmetic and for every coordinate values `xs` and modes `ms`, reads only cells the reader allocated
+    (result independent of everything else). -/
+theorem C07_read_then_use_safe (E : Ext) (f : Fits) (t : Fits.Table) (h : readFixed E f = .ok t)
+    (memK : Nat → Nat → Option Int) (keys : List (Option Int)) :
+    searchCenters (t.lookupAxes memK) keys ≠ .nonterm ∧
+    ∀ cs, searchCenters (t.lookupAxes memK) keys = .ok cs →
+      ∀ (kn : UInt64 → α) (cf : UInt32 → α) (mem mem' : Nat → Int → α) (memC memC' : Int → α),
+        PadAgree t mem mem' → ∀ (xs : List α), t.ndim = xs.length →
+          (∀ ms : List BasisMode, t.ndim = ms.length →
+            evalModes (t.evalView kn cf mem memC) xs cs ms = evalModes (t.evalView kn cf mem' memC') xs cs ms) ∧
+          (∀ maxDim, ndsplineevalGradient maxDim (t.evalView kn cf mem memC) xs cs
+            = ndsplineevalGradient maxDim (t.evalView kn cf mem' memC') xs cs) := by
+  obtain ⟨h1, _, h3⟩ := C07_accepted_lookup_safe E f t h memK keys
+  refine ⟨h1, ?_⟩
+  intro cs hcs kn cf mem mem' memC memC' hpad xs hx
+  have hc := h3 cs hcs kn mem
+  exact ⟨fun ms hm => C07_accepted_eval_reads_owned E f t h kn cf mem mem' memC memC' hpad xs cs ms hc hx hm,
+         fun maxDim => C07_accepted_gradient_reads_owned maxDim E f t h kn cf mem mem' memC memC' hpad xs cs hc hx⟩
+
+example : ∃ t, readFixed exExt exValid = .ok t ∧
+    searchCenters (t.lookupAxes fun _ _ => none) [some 4607182418800017408] = .ok [1] :=
+  ⟨_, exValid_read, by decide⟩
+
+/-- Every array of an accepted table has the size the header-derived counts say, so every index the reader, the
+    lookup, the evaluators and the writer form from `ndim`, `nknots`, `naxes`, `strides` is inside its array:
+    all per-dimension arrays have `ndim` entries, the coefficient array has `strides[0]*naxes[0] = Π naxes` entries
+    (what `write_fits_core` writes and what the evaluators index), extents `2·ndim`, periods `ndim`, and the two
+    indices `order[i]`, `nknots[i]-order[i]-1` of the made-up extents are inside `knots[i]` (`defaultExtentsChk`
+    checks every index and agrees). -/
+theorem C07_accepted_sizes (E : Ext) (f : Fits) (t : Fits.Table) (h : readFixed E f = .ok t) :
+    t.knots.length = t.ndim ∧ t.naxes.length = t.ndim ∧ t.strides.length = t.ndim ∧
+    t.coef.length = t.strides.headD 0 * t.naxes.headD 0 ∧ t.coef.length = prod t.naxes ∧
+    (∃ e p, t.extents = some e ∧ e.length = 2 * t.ndim ∧ t.periods = some p ∧ p.length = t.ndim) ∧
+    defaultExtentsChk t.order t.knots = some (defaultExtents t.order t.knots) := by
+  have hwf := readFixed_wf E f t h
+  obtain ⟨hpos, hk, hnx, hst, hco, hd, hex, hpe⟩ := hwf
+  have hne : t.naxes ≠ [] := by intro h'; rw [h'] at hnx; simp at hnx; omega
+  refine ⟨hk, hnx, ?_, ?_, hco, ?_, ?_⟩
+  · rw [hst]
+    have : ∀ l : List Nat, (rowMajor l).length = l.length := by
+      intro l; induction l with
+      | nil => rfl
+      | cons a as ih => simp [rowMajor, ih]
+    rw [this, hnx]
+  · rw [hco, hst, headD_rowMajor_mul _ hne]
+  · obtain ⟨e, p, he, hp⟩ := readFixed_some_arrays E f t h
+    rw [he] at hex; rw [hp] at hpe
+    exact ⟨e, p, he, by simpa using hex, hp, by simpa using hpe⟩
+  · exact defaultExtentsChk_eq _ _ hk (fun i hi => (hd i hi).1)
+
+example : ∃ t, readFixed exExt exValid = .ok t := ⟨_, exValid_read⟩
+
+/-- **Re-serialising an accepted table reads every array exactly to its end.**  `write_fits_core` writes
+    `Π naxes[ndim-1-i]` coefficients, `2·ndim` extents, `ndim` periods and orders and each knot vector whole; in the
+    model the buffers are cut with `take` / indexed with `getD`.  On an accepted table none of these cuts or defaults
+    is ever effective: the counts the writer forms are the lengths of the arrays the reader allocated. -/
+theorem C07_accepted_rewrite_in_bounds (E : Ext) (f : Fits) (t : Fits.Table) (h : readFixed E f = .ok t) :
+    t.coef.take (prod (wAxes t)) = t.coef ∧ prod (wAxes t) = t.coef.length ∧
+    (∀ e, t.extents = some e → e.take (2 * t.ndim) = e) ∧
+    (∀ p, t.periods = some p → p.length = t.ndim) ∧
+    (∀ i, i < t.ndim → i < t.order.length ∧ i < t.knots.length ∧ t.ndim - i - 1 < t.naxes.length) := by
+  obtain ⟨hk, hnx, _, _, hco, ⟨e, p, he, hel, hp, hpl⟩, _⟩ := C07_accepted_sizes E f t h
+  have hw : prod (wAxes t) = t.coef.length := by rw [wAxes_eq t hnx, prod_reverse, hco]
+  refine ⟨by rw [hw, List.take_length], hw, ?_, ?_, ?_⟩
+  · intro e' he'
+    rw [he] at he'; cases he'
+    rw [← hel, List.take_length]
+  · intro p' hp'
+    rw [hp] at hp'; cases hp'
+    exact hpl
+  · intro i hi
+    exact ⟨hi, by omega, by omega⟩
+
+example : ∃ t, readFixed exExt exValid = .ok t := ⟨_, exValid_read⟩
+
+section field
+variable {β : Type} [Field β] [LinearOrder β]
+attribute [local instance] Arith.ofField
+
+/-- Every accepted table satisfies the full well-formedness the evaluation-correctness theorems assume
+    (`Table.WF` of `Proofs/Bridge.lean`: `Dim.WF` — `nknots ≥ 2·order+2`, `naxes = nknots-order-1`, knots
+    non-decreasing on `[0, nknots)` — for every dimension, last stride 1), for every interpretation of the knot bit
+    patterns that respects the order of finite doubles. -/
+theorem C07_accepted_eval_wf (E : Ext) (f : Fits) (t : Fits.Table) (h : readFixed E f = .ok t)
+    (kn : UInt64 → β) (hk : KeyMono kn) (cf : UInt32 → β) (mem : Nat → Int → β) (memC : Int → β) :
+    (t.evalView kn cf mem memC).WF :=
+  evalView_WF t (readFixed_wf E f t h) kn hk cf mem memC
+
+end field
+
+/-- `KeyMono` is satisfiable: the integer key itself, as a rational -/
+example : KeyMono (fun b => ((dkey b : Int) : Rat)) := by
+  intro a b _ _ hab
+  show ((dkey a : Int) : Rat) ≤ ((dkey b : Int) : Rat)
+  exact_mod_cast hab
+
+/-- … in particular with the knots read as the real numbers the doubles denote (`valQ`), in exact arithmetic: the
+    hypothesis `hwf : T.WF` of the evaluation-correctness theorems (C01, C02) holds for every accepted table. -/
+theorem C07_accepted_eval_wf_real (E : Ext) (f : Fits) (t : Fits.Table) (h : readFixed E f = .ok t)
+    (cf : UInt32 → Rat) (mem : Nat → Int → Rat) (memC : Int → Rat) :
+    _root_.PsV.Table.WF (α := Rat) (t.evalView valQ cf mem memC) :=
+  C07_accepted_eval_wf E f t h valQ valQ_keyMono cf mem memC
+
+example : ∃ t, readFixed exExt exValid = .ok t := ⟨_, exValid_read⟩
+
+/-! ## bytes -/
+
+/-- **The decoder stays inside the buffer.**  For every byte string `b`: if the decoder accepts it as the store `f`,
+    then `b` is tiled, without remainder, by the HDUs of `f` — each a header of at least one 2880-byte block and data
+    blocks that contain the `width · Π axes` pixel bytes the header cards declare; each pixel array has exactly the
+    declared number of elements and *is* the sequence of big-endian words at its offset in `b` (`Framed`, `HduSpan`).
+    In particular the declared sizes are covered by bytes that are present. -/
+theorem C07_bytes_framed (b : Bytes) (f : Fits) (h : decodeFits b = some f) :
+    Framed b f ∧ f ≠ [] ∧ (∀ g ∈ f, g.pix.length = npix g.axes) ∧
+    (f.map fun g => 2880 + g.pix.width * npix g.axes).sum ≤ b.length :=
+  ⟨decodeFits_framed b f h, decodeFits_ne_nil b f h, framed_count b f (decodeFits_framed b f h),
+   framed_size b f (decodeFits_framed b f h)⟩
+
+/-- non-vacuous: the bytes of a three-HDU file are accepted by the decoder -/
+example : decodeFits (encodeFits Codec.exampleFits) = some Codec.exampleFits :=
+  Codec.decode_encode Codec.exampleFits (by decide) Codec.exampleFits_ok
+
+/-- **Reading any bytes** (within the decoder's subset): for every byte string the decoder accepts, the guarded read
+    of the decoded store ends either with a well-formed table in a complete, safely destructible object, or with an
+    error and the empty object — what the driver's command `R` computes (`decodeFits`, then `readFixed`, then
+    `cleanup (stateAt …)`), for all inputs. -/
+theorem C07_bytes_total (E : Ext) (b : Bytes) (f : Fits) (h : decodeFits b = some f) :
+    Framed b f ∧
+    ((∃ t, readFixed E f = .ok t ∧ readGuarded E f = .ok (stateAt true t.ndim .done, .ok t) ∧ t.WF ∧
+        destroy (stateAt true t.ndim .done) = .ok []) ∨
+     (∃ e, readFixed E f = .error e ∧ readGuarded E f = .ok (Obj.empty, .error e) ∧
+        afterFailure (f.headD default).axes.length e = .ok Obj.empty)) := by
+  refine ⟨decodeFits_framed b f h, ?_⟩
+  cases hr : readFixed E f with
+  | ok t => exact .inl ⟨t, rfl, (readGuarded_ok E f t hr).1, readFixed_wf E f t hr, (readGuarded_ok E f t hr).2⟩
+  | error e => exact .inr ⟨e, rfl, readGuarded_error E f e hr, cleanup_after_readFixed E f e hr⟩
+
+example : ∃ f, decodeFits (encodeFits Codec.exampleFits) = some f :=
+  ⟨_, Codec.decode_encode Codec.exampleFits (by decide) Codec.exampleFits_ok⟩
 
 end PsV
